@@ -24,6 +24,7 @@ struct Cn {
     gp_delaunay_states: AtomicU64,
     verdicts: AtomicU64,
     capped: AtomicU64,
+    recycled_seeds: AtomicU64,
 }
 
 fn check_state<K: Kernel<D, Scalar = f64>, const D: usize>(rep: &Report, cn: &Cn, kname: &str, family: &str, pts: &[[f64; D]], gp: bool, dt: &DtI<K, D>, dist: usize) {
@@ -93,6 +94,23 @@ fn run_seed<K: Kernel<D, Scalar = f64>, const D: usize>(rep: &Report, cn: &Cn, k
         cn.valid_states.fetch_add(1, Ordering::Relaxed);
         check_state(rep, cn, kname, family, pts, gp, dt, *dist);
     }
+    // the same point set with recycled vertex slots (keys whose index order and raw order disagree): only when the
+    // incremental build stored the input coordinates unperturbed, so that `pts` still describes the state
+    if let Some(rdt) = corpus::build_recycled::<K, D>(pts, TopologyGuarantee::PLManifold) {
+        let unperturbed = rdt.vertices().all(|(_, v)| pts.iter().any(|p| p == v.point().coords()));
+        if unperturbed {
+            cn.recycled_seeds.fetch_add(1, Ordering::Relaxed);
+            let cl = flip_closure(&rdt, false, cap);
+            cn.transitions.fetch_add(cl.transitions, Ordering::Relaxed);
+            for (dt, valid, dist) in &cl.states {
+                cn.states.fetch_add(1, Ordering::Relaxed);
+                if *valid {
+                    cn.valid_states.fetch_add(1, Ordering::Relaxed);
+                    check_state(rep, cn, kname, family, pts, gp, dt, *dist);
+                }
+            }
+        }
+    }
     if pts.len() == D + 3 && pts[0][0] == 0.0 {
         rep.sample(json!({"D": D, "kernel": kname, "family": family, "points": pts.iter().map(|p| p.to_vec()).collect::<Vec<_>>(), "closure_states": cl.states.len(), "valid": cl.states.iter().filter(|s| s.1).count(), "general_position": gp}), 10);
     }
@@ -139,7 +157,7 @@ fn main() {
     vcore::exact::self_check();
     let thorough = args.tier == Tier::Thorough;
     let x = usize::from(thorough);
-    let cn = Cn { seeds: AtomicU64::new(0), states: AtomicU64::new(0), valid_states: AtomicU64::new(0), transitions: AtomicU64::new(0), non_delaunay_states: AtomicU64::new(0), gp_delaunay_states: AtomicU64::new(0), verdicts: AtomicU64::new(0), capped: AtomicU64::new(0) };
+    let cn = Cn { seeds: AtomicU64::new(0), states: AtomicU64::new(0), valid_states: AtomicU64::new(0), transitions: AtomicU64::new(0), non_delaunay_states: AtomicU64::new(0), gp_delaunay_states: AtomicU64::new(0), verdicts: AtomicU64::new(0), capped: AtomicU64::new(0), recycled_seeds: AtomicU64::new(0) };
     let mut bounds = Vec::new();
     let cap = if thorough { 50_000 } else { 6000 };
     // degenerate grids
@@ -181,6 +199,7 @@ fn main() {
         "certainly_non_delaunay_states": nd,
         "general_position_strictly_delaunay_states": gpd,
         "verdicts_compared": cn.verdicts.load(Ordering::Relaxed),
+        "seeds_rebuilt_with_recycled_vertex_slots": cn.recycled_seeds.load(Ordering::Relaxed),
         "closures_capped": cn.capped.load(Ordering::Relaxed),
         "rule": "for every subset of the per-dimension alphabets (degenerate grids and an exactly verified general-position family) the complete closure under the k>=2 Edit-API flips is computed by BFS with the real flip calls (state identity = set of cells as vertex sets); every state that passes the independent L1-L3 + convex-embedding reference is judged: accept => no certain exact violation; general position and strictly Delaunay => not rejected",
         "bounds": bounds,
